@@ -179,9 +179,11 @@ def rand_opts(rng, profile, level):
         # 0 stands for the available parallelism P: lists that also name P (or 0 twice) must collapse after resolution
         P = PARALLELISM
         o["th"] = rng.choice([[1], [2], [1, 2], [0], [3, 1], [2, 2, 1], [4], [], [1, 3, 2], [0, P], [P, 0], [0, 2, P], [0, 0], [P, P, 1]])
+        if rng.random() < 0.12:
+            o["th"] = []      # a set option: one thread, and it masks the thread counts of the levels above
         # how the attribute would have spelled it: a literal array (kept as is), or a scalar / bool / iterator that goes
         # through the macro's IntoThreads conversions
-        r = rng.random()
+        r = rng.random() if o["th"] else rng.choice([0.5, 0.9])
         if r < 0.3:
             n = rng.choice([0, 1, 2, 3, 4, 5, 6, 8])
             o["_thform"], o["_thraw"], o["th"] = "scalar", n, [n]
@@ -229,8 +231,11 @@ def rand_beh(rng, profile):
 
 
 ARG_LISTS = {
-    "i64": lambda rng: rng.choice([["10", "9", "100", "1"], ["-3", "5", "0", "-10", "7"], ["1", "2", "3"], ["5"], ["0", "00", "7"][:1] + ["12", "3"],
+    "i64": lambda rng: rng.choice([["-1", "-9223372036854775808", "5", "-2"], ["-2", "-1", "9223372036854775807"], ["10", "9", "100", "1"], ["-3", "5", "0", "-10", "7"], ["1", "2", "3"], ["5"], ["0", "00", "7"][:1] + ["12", "3"],
                                    [str(rng.randrange(-50, 50)) for _ in range(rng.randrange(1, 9))], [str(i * 37 % 101) for i in range(rng.randrange(10, 31))]]),
+    # unsigned values at and above 2^63 share their bit patterns with negative signed ones (u64::MAX ~ -1, 2^63 ~ i64::MIN)
+    "u64": lambda rng: rng.choice([["18446744073709551615", "9223372036854775808", "5"], ["18446744073709551614", "1", "18446744073709551615"],
+                                   ["10", "9", "100"], ["9223372036854775807", "9223372036854775808"]]),
     "f64": lambda rng: rng.choice([["1.5", "0.25", "10", "-2.5"], ["3", "1e3", "0.001"], ["2.5", "2.25", "-0.5", "100.125"]]),
     "string": lambda rng: rng.choice([["b", "a", "c"], ["x10", "x9", "x100"], ["foo", "Foo", "bar baz"], ["é", "z", "a1"], ["10", "9", "abc", "-4"]]),
     "str": lambda rng: rng.choice([["b", "a"], ["v1.10", "v1.9", "v1.2"], ["one", "two", "three", "four"]]),
@@ -242,7 +247,7 @@ ARG_LISTS = {
 
 def arg_render(argtype, a):
     """How the argument prints (ToString, or Debug for the Debug-only type)."""
-    if argtype == "i64":
+    if argtype in ("i64", "u64"):
         return str(int(a))
     if argtype == "f64":
         return rust_f64_display(float(a))
@@ -344,6 +349,12 @@ def gen_spec(rng, profile=None):
         b.order = len(items)
         items.append(b)
         bid += 1
+    # two benchmarks of one process whose integer arguments share bit patterns across signedness
+    argb = [b for b in items if isinstance(b, Bench) and b.kind == "args" and b.args]
+    if len(argb) >= 2 and rng.random() < 0.3:
+        x, y = rng.sample(argb, 2)
+        x.argtype, x.args = "i64", list(rng.choice([["-1", "-9223372036854775808", "5", "-2"], ["-2", "-1", "7"]]))
+        y.argtype, y.args = "u64", list(rng.choice([["18446744073709551615", "9223372036854775808", "5"], ["18446744073709551614", "18446744073709551615"]]))
     rng.shuffle(items)
     # declaration order of benches follows their position in the (shuffled) registration list
     for i, it in enumerate(items):
